@@ -216,6 +216,7 @@ class Sim:
         self.cur = None  # current update record
         self._patches = []
         self._line_counts = {}
+        self._line_counts_after = {}
         self._line_fault = None
         self._line_seen = 0
         self._in_update = False
@@ -278,6 +279,8 @@ class Sim:
                 continue
             if at.get("step") is not None and at["step"] != step:
                 continue
+            if at.get("final_save") and not self.h.faults_fired:
+                continue
             if at.get("nth") is not None:
                 at["_seen"] = at.get("_seen", 0) + 1
                 if at["_seen"] - 1 != at["nth"]:
@@ -313,10 +316,19 @@ class Sim:
         key = name
         n = self._line_counts.get(key, 0)
         self._line_counts[key] = n + 1
+        fired_before = bool(self.h.faults_fired)
+        if fired_before:
+            m = self._line_counts_after.get(key, 0)
+            self._line_counts_after[key] = m + 1
         lf = self._line_fault
         if lf is not None and not lf["_fired"]:
             at = lf["at"]
-            if at["func"] == name and at["ordinal"] == n and at.get("stage", self.stage) == self.stage:
+            if at.get("final_save"):
+                # second fault of a sequence: counted from the moment the first fault fired
+                hit = fired_before and at["func"] == name and at.get("ordinal_rel", 0) == m
+            else:
+                hit = at["func"] == name and at["ordinal"] == n
+            if hit and at.get("stage", self.stage) == self.stage:
                 tag = f"line:{name}#{n}:L{frame.f_lineno}"
                 at["_lineno"] = frame.f_lineno
                 self._fire(lf, tag)
